@@ -262,6 +262,14 @@ Definition space_of (i : nat) : M space := fun s =>
 Definition lift_opt {A} (o : option A) : M A := match o with Some a => ret a | None => fail EOther end.
 Definition elem_id (v : pyval) : M nat := match v with VElem i => ret i | _ => fail EOther end.
 
+(* out-of-place element arithmetic: `tmp = space.element()` followed by the in-place primitive *)
+Definition new_add (i j : nat) : M pyval :=      (* a + b : space.lincomb(1, a, 1, b, out=tmp) *)
+  sp <- space_of i ;; t <- alloc_empty sp ;; _ <- do_lincomb none_ i none_ j t ;; ret (VElem t).
+Definition new_mul (j i : nat) : M pyval :=      (* a.__mul__(b): space.multiply(b, a, out=tmp) *)
+  sp <- space_of i ;; t <- alloc_empty sp ;; _ <- do_multiply j i t ;; ret (VElem t).
+Definition new_scaled (u : V) (i : nat) : M pyval :=   (* s * a : space.lincomb(s, a, out=tmp) *)
+  sp <- space_of i ;; t <- alloc_empty sp ;; _ <- do_lincomb1 u i t ;; ret (VElem t).
+
 Fixpoint eval_ex (I : inst) (e : env) (x : ex) : M pyval :=
   match x with
   | XRef r => lift_opt (lookup I e r)
@@ -273,26 +281,22 @@ Fixpoint eval_ex (I : inst) (e : env) (x : ex) : M pyval :=
       va <- eval_ex I e a ;; vb <- eval_ex I e b ;;
       match va, vb with
       | VSc u, VSc v => ret (VSc (u + v))
-      | VElem i, VElem j =>            (* tmp = space.element(); space.lincomb(1, a, 1, b, out=tmp) *)
-          sp <- space_of i ;; t <- alloc_empty sp ;; _ <- do_lincomb none_ i none_ j t ;; ret (VElem t)
+      | VElem i, VElem j => new_add i j
       | _, _ => fail EOther
       end
   | XMul a b =>
       va <- eval_ex I e a ;; vb <- eval_ex I e b ;;
       match va, vb with
       | VSc u, VSc v => ret (VSc (u * v))
-      | VElem i, VElem j =>            (* a.__mul__(b): space.multiply(b, a, out=tmp) *)
-          sp <- space_of i ;; t <- alloc_empty sp ;; _ <- do_multiply j i t ;; ret (VElem t)
-      | VElem i, VSc u | VSc u, VElem i =>
-          sp <- space_of i ;; t <- alloc_empty sp ;; _ <- do_lincomb1 u i t ;; ret (VElem t)
+      | VElem i, VElem j => new_mul j i
+      | VElem i, VSc u | VSc u, VElem i => new_scaled u i
       | _, _ => fail EOther
       end
   | XScal c a =>
       va <- eval_ex I e a ;; u <- lift_opt (eval_scal I e c) ;;
       match va with
       | VSc v => ret (VSc (u * v))
-      | VElem i =>                     (* space.lincomb(s, a, out=tmp) *)
-          sp <- space_of i ;; t <- alloc_empty sp ;; _ <- do_lincomb1 u i t ;; ret (VElem t)
+      | VElem i => new_scaled u i
       | _ => fail EOther
       end
   | XNew sp => p <- lift_opt (sel_space I sp) ;; t <- alloc_empty p ;; ret (VElem t)
